@@ -94,4 +94,28 @@ theorem group_isSome (grp : PCell) : (groupExpr (tcell grp)).isSome = stateRefGr
     simp [hb, hk]
 
 
+theorem bind_ite_none {α β : Type} (c : Prop) [Decidable c] (y : Option α) (k : α → Option β) :
+    Option.bind (if c then none else y) k = if c then none else Option.bind y k := by
+  split <;> rfl
+
+theorem bp_mk (e : Bool) (b : Bits) (r : List Tlb.Cell) : Rd.beginParse (Tlb.Cell.mk e b r) = ⟨b, r⟩ := rfl
+theorem sp_mk (e : Bool) (b : Bits) (r : List Tlb.Cell) : Rd.special (Tlb.Cell.mk e b r) = e := rfl
+
+/-- the value `load_bit()` returns -/
+def bitVal (b : Bits) : Val := .int (if b.headD false then 1 else 0)
+
+theorem loadBit_eq (b : Bits) (r : List Tlb.Cell) :
+    Rd.loadBit ⟨b, r⟩ = if b.length < 1 then none else some (bitVal b, ⟨b.drop 1, r⟩) := by
+  cases b <;> simp [Rd.loadBit, bitVal]
+
+theorem locate_short (st : PCell) (addr : Bytes) (h : st.info.bits.length < 361) : locateAccount srcOpaque st addr = none := by
+  unfold locateAccount
+  by_cases hk : st.info.kind = -1 <;> simp [hk, h]
+
+theorem locate_badident (st : PCell) (addr : Bytes) (h : (st.info.bits.drop 64).take 2 ≠ [false, false]) :
+    locateAccount srcOpaque st addr = none := by
+  unfold locateAccount
+  by_cases hk : st.info.kind = -1 <;> by_cases h1 : st.info.bits.length < 361 <;>
+    by_cases h2 : st.info.bits.take 32 = shardStateTag <;> simp [hk, h, h1, h2]
+
 end TonVerif.Proofs.SrcLocate
